@@ -1,77 +1,37 @@
+// probe runs one harness function from a file under /verif/harness (debugging aid):
+//
+//	probe <pkg> <harness-file[,extra...]> <func> [args...]
 package main
 
 import (
 	"fmt"
 	"os"
-	"time"
+	"strconv"
+	"strings"
 
-	"verif/smt"
-	"verif/symgo"
+	"verif/checks"
 )
 
-const harness = `package procbuilder
-
-func zzT1() {
-	x := zzNondetU8("x")
-	y := zzNondetU8("y")
-	s := zzNondetBits("w", 4)
-	id := get_id(s)
-	zzAssert("idrange", id < 16)
-	zzAssert("idrange-bad", id < 15)
-	n := Needed_bits(int(x))
-	zzAssume(x > 0)
-	zzAssert("adequate", 1<<uint(n) >= int(x))
-	zzAssert("sum", x+y == y+x)
-	zzReach("end")
-}
-
-func zzT2() {
-	m := new(Machine)
-	m.Rsize = 8
-	m.R = 2
-	m.O = 3
-	m.Modes = []string{"ha"}
-	m.Op = []Opcode{Add{}, Inc{}, J{}, Rset{}}
-	for _, op := range m.Op {
-		_ = op.Op_get_name()
-	}
-	a := zzNondetU8("a")
-	zzAssume(a < 6)
-	w, err := Add{}.Assembler(&m.Arch, []string{"r" + string(rune('0'+a)), "r1"})
-	if err == nil {
-		zzAssert("len", len(w) == m.Max_word()-m.Opcodes_bits())
-		zzAssert("a<4", a < 4)
-		d, _ := Add{}.Disassembler(&m.Arch, w)
-		zzExport("dis", d)
-		zzReach("ok")
-	} else {
-		zzAssert("a>=4", a >= 4)
-		zzReach("err")
-	}
-}
-` + symgo.Prelude
-
 func main() {
-	t0 := time.Now()
-	p, err := symgo.Load("/repo", []string{"pkg/procbuilder"}, map[string][]byte{"/repo/pkg/procbuilder/zz_verif_harness.go": []byte(harness)})
-	if err != nil {
-		fmt.Println(err)
+	if len(os.Args) < 4 {
+		fmt.Println("usage: probe <pkg> <file[,extra]> <func> [args]")
 		os.Exit(2)
 	}
-	fmt.Println("loaded in", time.Since(t0))
-	for _, name := range os.Args[1:] {
-		st := smt.NewStore()
-		sol, _ := smt.NewSolver("z3", st, 20000)
-		in := symgo.NewInterp(p, st, sol)
-		in.Trace = os.Getenv("TRACE") != ""
-		t1 := time.Now()
-		err = in.RunHarness(p.Func("pkg/procbuilder", name), nil, "pkg/procbuilder")
-		fmt.Println(name, "ran in", time.Since(t1), "err:", err, "instrs", in.Stats.Instrs, "forks", in.Stats.Forks, "feas", in.Stats.FeasQueries)
-		for _, v := range in.Discharge() {
-			fmt.Printf("  %-8s %-14s %-12s %v %s\n", v.Obl.Kind, v.Obl.Tag, v.Result, v.Model, v.Obl.Pos)
+	files := strings.Split(os.Args[2], ",")
+	h := checks.Harness{File: files[0], Extra: files[1:], Pkg: os.Args[1]}
+	p := checks.LoadProgram([]string{os.Args[1]}, h)
+	var args []checks.Arg
+	for _, a := range os.Args[4:] {
+		if v, err := strconv.Atoi(a); err == nil {
+			args = append(args, checks.I(v))
+		} else {
+			args = append(args, checks.S(a))
 		}
-		fmt.Println("  stubs:", in.Stats.Stubs, "lastkill:", in.LastKill)
-		fmt.Println("  solver errors:", sol.Errors)
-		sol.Close()
+	}
+	outs := checks.RunFamily(p, []checks.Config{{Name: "probe", Func: os.Args[3], Args: args}}, checks.RunOpts{Pkg: os.Args[1], Inits: []string{os.Args[1]}, PanicObl: true, Workers: 1})
+	o := outs[0]
+	fmt.Println("err:", o.Err, "instrs", o.Instrs, "forks", o.Forks, "queries", o.Queries, "solver_s", o.SolverS)
+	for _, ob := range o.Obls {
+		fmt.Printf("  %-7s %-28s %-12s %s %v\n", ob.Kind, ob.Tag, ob.Result, ob.Pos, ob.Model)
 	}
 }
